@@ -248,6 +248,9 @@ class History:
             pool = epics
         else:
             pool = tasks + epics
+        if x < 0.04 and pool:
+            i = rng.choice(pool)                       # a live id, mis-spelled: ids are exact, case-sensitive strings
+            return rng.choice([i.lower(), ' ' + i, i + ' ', i[:-1], i + 'X'])
         if x < 0.78 and pool:
             return rng.choice(pool)
         if x < 0.86 and self.pruned:
@@ -341,6 +344,9 @@ class History:
                 after.append(t)                    # self
             if rng.random() < 0.04:
                 after.append('no such title')
+            if i > 0 and rng.random() < 0.06:
+                t0 = titles[rng.randrange(i)]
+                after.append(rng.choice([t0 + ' ', ' ' + t0, t0.upper(), t0.lower(), t0[:-1]]))   # near-miss reference
             if after and rng.random() < 0.1:
                 after.append(after[0])             # duplicate
             if after:
@@ -392,6 +398,18 @@ class History:
             n = rng.choice([2, 2, 2, 3, 3, 4, 1])
             kk = 'epic' if rng.random() < 0.25 else 'task'
             pool = self.live(kk == 'epic')
+            edges = [(t['id'], d) for t in self.snap['tasks'] for d in t['deps']]
+            if edges and rng.random() < 0.22:
+                # try to close a cycle: follow existing deps from some item for a few hops, then ask for the reverse
+                adj = {}
+                for a, b in edges:
+                    adj.setdefault(a, []).append(b)
+                cur = start = rng.choice(edges)[0]
+                for _ in range(rng.choice([1, 2, 3])):
+                    if cur in adj:
+                        cur = rng.choice(adj[cur])
+                if cur != start:
+                    return Req(k='seq', ids=[start, cur])      # cur would depend on start, but start already reaches cur
             if len(pool) >= n and rng.random() < 0.7:
                 ids = rng.sample(pool, n)                      # distinct live items of one kind (may still close a cycle)
                 if rng.random() < 0.15:
